@@ -195,6 +195,9 @@ func writeReplay(p Property, seed uint64, run int, enumerated bool, entries []ui
 		rf.Case = run
 	}
 	dir := filepath.Join(VerifDir, "replays")
+	if d := os.Getenv("SIMCALC_REPLAYDIR"); d != "" {
+		dir = d
+	}
 	os.MkdirAll(dir, 0o755)
 	kind := "r"
 	if enumerated {
@@ -482,7 +485,11 @@ func Check(p Property, tier Tier, seed uint64, workers int, runsOverride int) in
 		Assumptions: p.Assumptions(), WallS: wall, Violations: len(agg.Violations) + kfViol}
 	os.MkdirAll(filepath.Join(VerifDir, "evidence"), 0o755)
 	b, _ := json.MarshalIndent(ev, "", " ")
-	if err := os.WriteFile(filepath.Join(VerifDir, "evidence", p.ID()+".json"), b, 0o644); err != nil {
+	evPath := filepath.Join(VerifDir, "evidence", p.ID()+".json")
+	if os.Getenv("SIMCALC_NOEVIDENCE") != "" { // sensitivity experiments against scratch copies must not overwrite evidence
+		evPath = os.DevNull
+	}
+	if err := os.WriteFile(evPath, b, 0o644); err != nil {
 		fmt.Fprintln(os.Stderr, "cannot write evidence:", err)
 		return ExitTrouble
 	}
